@@ -40,6 +40,10 @@ CHECKS = {
             "DESIGN.md §3 C09",
             "For every recorded session x 7 delivery orders (plus harness-written FDTs without OTI so that the OTI arrives in-band after attachment) the choice-sequence explorer enumerates every combination of at most 1 (quick) / 2 (thorough) non-default environment answers; on every execution each writer's call log is run through the typestate automaton (open once, writes, one terminal, nothing after; only a terminal call after a failed open), writes must form a prefix of the content, complete only with the full content and no failed write, and after the receiver is dropped every opened writer is terminated.",
             "Trusted: monitoring writer; deviation bound; packet orders are 7 fixed shapes per session (all orders are C03's job)."),
+    "C11": ("model_checking", "explicit-state BFS over the real Sender's transition function, states merged on a canonical fingerprint of the whole Sender plus monitor state", "statex",
+            "DESIGN.md §3 C11",
+            "All histories over {add (catalogue order), publish, remove, one read, tick} to depth 8 (quick) / 11 (thorough, state cap reported) for both publish modes x multiplex 1..2 x 1..2 queues x multi-packet and single-packet FDT instances; the monitor reassembles every FDT instance from the TOI-0 packets with the independent codec and requires, for every object packet, a completely emitted instance listing its TOI, no object packet inside a partly emitted instance, and none between a publication (explicit, or automatic at transfer start) and the complete emission of a new instance.",
+            "Trusted: rfc.rs, the fingerprint (compact derived Debug of the Sender; checked on every run against the general canonicaliser and by re-running the search), the small catalogue of 3 objects."),
 }
 
 NOT_YET = {}
